@@ -22,7 +22,7 @@ import (
 	"github.com/dolthub/dolt/go/zzverif/vsql"
 )
 
-const c34Rule = "one database per case: 2-3 keyed tables (pk INT, c INT, later ADD COLUMN dN INT) with 1-3 rows, 1-2 commits on main, a branch b1 at one of them (50%: with its own extra commit; 45%: with uncommitted changes), then 8-18 drawn steps (weights depend on the state: more stash pushes while a table has staged and unstaged changes, more pops while a stash exists) on one session: row INSERT/UPDATE/DELETE, CREATE TABLE, DROP TABLE, ADD COLUMN (all values fresh, so logically equal tables are byte-equal tables); dolt_add(t|'.'); dolt_reset(t|no args), ('--hard'[,commit]), ('--soft',commit), (commit); dolt_commit('-m'|'-am'); dolt_stash('push',name[, '--include-untracked']) / pop / drop on two stash names; dolt_checkout(branch), ('--move',branch), (table). Oracle: a three-root model per branch written from the procedures' documentation: add copies working->staged per table; table reset copies HEAD->staged; hard reset sets staged=working=target keeping untracked tables; soft reset moves HEAD only; mixed reset moves HEAD and staged; stash push saves the (tracked [+untracked with -u]) changes and leaves staged=HEAD and the stashed tables of working = HEAD; pop three-way-merges the stash into working (table level, row/cell level through vsql.Merge3 when both sides changed a table) and re-stages tables that were staged as new, failing without any change on a conflict; plain checkout only switches the session; --move carries the uncommitted changes to the target iff no table would be overwritten (else it fails and nothing changes) and leaves the source branch clean. After every version-control call HEAD hash, HEAD/STAGED/WORKING tables+schemas+rows of both branches, active_branch() and dolt_stashes are compared with the model. Non-trivial (DESIGN): the sequence contains a successful stash push over a table that had both staged and unstaged changes and a --move checkout that had to be refused (classes count how many cases also popped that stash, carried changes across branches, hard-reset a doubly dirty working set, ...); distinct by the full step list."
+const c34Rule = "one database per case: 2-3 keyed tables (pk INT, c INT, later ADD COLUMN dN INT) with 1-3 rows, 1-2 commits on main, a branch b1 at one of them (50%: with its own extra commit; 45%: with uncommitted changes), then 8-18 drawn steps (weights depend on the state: more stash pushes while a table has staged and unstaged changes, more pops while a stash exists) on one session: row INSERT/UPDATE/DELETE, CREATE TABLE, DROP TABLE, ADD COLUMN (all values fresh, so logically equal tables are byte-equal tables); dolt_add(t|'.'); dolt_reset(t|no args), ('--hard'[,commit]), ('--soft',commit), (commit); dolt_commit('-m'|'-am'); dolt_stash('push',name[, '--include-untracked']) / pop / drop at drawn positions stash@{k} (top, any entry of a longer list, rarely one past the end) / clear on two stash names, pushes after removals; dolt_checkout(branch), ('--move',branch), (table). Oracle: a three-root model per branch written from the procedures' documentation: add copies working->staged per table; table reset copies HEAD->staged; hard reset sets staged=working=target keeping untracked tables; soft reset moves HEAD only; mixed reset moves HEAD and staged; stash push saves the (tracked [+untracked with -u]) changes and leaves staged=HEAD and the stashed tables of working = HEAD; pop three-way-merges the stash into working (table level, row/cell level through vsql.Merge3 when both sides changed a table) and re-stages tables that were staged as new, failing without any change on a conflict; plain checkout only switches the session; --move carries the uncommitted changes to the target iff no table would be overwritten (else it fails and nothing changes) and leaves the source branch clean. After every version-control call HEAD hash, HEAD/STAGED/WORKING tables+schemas+rows of both branches, active_branch() and dolt_stashes (per name the ids stash@{0..n-1} in order with the hash of the commit each entry was pushed on) are compared with the model; at the end of a case every remaining stash is popped after a hard reset and what it restores is compared. Non-trivial (DESIGN): the sequence contains a successful stash push over a table that had both staged and unstaged changes and a --move checkout that had to be refused (classes count how many cases also popped that stash, carried changes across branches, hard-reset a doubly dirty working set, ...); distinct by the full step list."
 
 var c34Assumptions = []string{
 	"no dolt_ignore patterns, foreign keys, renames or auto-increment columns are generated (C46 covers ignore patterns); table and branch names never coincide",
@@ -30,6 +30,7 @@ var c34Assumptions = []string{
 	"dolt_checkout(table) and dolt_reset(table) are only issued for tables present in HEAD or staged (what they do to an untracked table is not documented: today checkout deletes it, reset fails)",
 	"when a stash pop has to merge a table that both the stash and the working set changed and the change involves a schema change, an add/add or a delete/modify, the model does not predict success or failure: the step must be atomic (either error and no change, or success) and the model is re-read from dolt (class pop_uncertain)",
 	"a --move checkout where both branches have uncommitted changes that are equal in the model is not generated as an oracle case (class move_both_dirty_equal: outcome adopted)",
+	"at most 9 stashes are pushed per case: stash keys are decimal strings in a lexicographically ordered map, so lists whose keys reach 10 are outside what this check asserts",
 	"after stash push+pop the staged root is the documented one (HEAD plus the tables that were staged as new, taken with their working contents), not the pre-push staged root: dolt's stash stores one root, like git stash pop without --index",
 }
 
@@ -159,9 +160,9 @@ type c34Model struct {
 	fresh   int
 }
 
-func (m *c34Model) b() *c34Branch      { return m.br[m.cur] }
-func (m *c34Model) headRoot() c34Root  { return m.commits[m.b().head].root }
-func (m *c34Model) next() int          { m.fresh++; return 100 + m.fresh }
+func (m *c34Model) b() *c34Branch     { return m.br[m.cur] }
+func (m *c34Model) headRoot() c34Root { return m.commits[m.b().head].root }
+func (m *c34Model) next() int         { m.fresh++; return 100 + m.fresh }
 func (m *c34Model) other() string {
 	if m.cur == "main" {
 		return "b1"
@@ -461,10 +462,10 @@ func c34MoveTables(oldHead, newHead, changed c34Root) (res c34Root, conflict boo
 }
 
 type c34MoveOutcome struct {
-	fail     bool
-	adopt    bool     // outcome not predicted (both dirty and equal)
-	carried  bool     // uncommitted changes were moved
-	deviant  *c34Model // known-finding variant (dropped tables reappear)
+	fail    bool
+	adopt   bool      // outcome not predicted (both dirty and equal)
+	carried bool      // uncommitted changes were moved
+	deviant *c34Model // known-finding variant (dropped tables reappear)
 }
 
 func (m *c34Model) checkoutMove(dst string) c34MoveOutcome {
@@ -538,14 +539,15 @@ type c34Env struct {
 }
 
 type c34Case struct {
-	rec  *vh.Recorder
-	rt   *rapid.T
-	db   string
-	act  *vsql.Session
-	obs  map[string]*vsql.Session
-	m    *c34Model
-	log  []string
-	note func(string)
+	removed bool // an entry below the top was removed and nothing was pushed since
+	rec     *vh.Recorder
+	rt      *rapid.T
+	db      string
+	act     *vsql.Session
+	obs     map[string]*vsql.Session
+	m       *c34Model
+	log     []string
+	note    func(string)
 }
 
 func (c *c34Case) observe() *c34Obs {
@@ -877,7 +879,8 @@ func c34Run(rt *rapid.T, env *c34Env, rec *vh.Recorder, known map[string]int) {
 					c.m.stashes[name][0].both = true
 					pushBoth = true
 				}
-				if rapid.IntRange(0, 9).Draw(rt, label+".pop_next") < 5 {
+				c.removed = false
+				if rapid.IntRange(0, 9).Draw(rt, label+".pop_next") < 2 {
 					forcePop = name
 				}
 			} else {
@@ -899,8 +902,9 @@ func c34Run(rt *rapid.T, env *c34Env, rec *vh.Recorder, known map[string]int) {
 			wasBoth := len(pre.stashes[name]) > idx && pre.stashes[name][idx].both
 			fail, uncertain := c.m.stashPop(name, idx)
 			q := fmt.Sprintf("CALL dolt_stash('pop','%s'%s)", name, arg)
-			if idx > 0 && !fail {
+			if idx > 0 && !fail && !uncertain {
 				classes["stash_pop_not_top"] = true
+				c.removed = true
 			}
 			if uncertain {
 				c.uncertain(label, q, pre, name, idx)
@@ -926,6 +930,7 @@ func c34Run(rt *rapid.T, env *c34Env, rec *vh.Recorder, known map[string]int) {
 				classes["stash_drop"] = true
 				if idx > 0 {
 					classes["stash_drop_not_top"] = true
+					c.removed = true
 				}
 			}
 		case "stash_clear":
@@ -979,6 +984,7 @@ func c34Run(rt *rapid.T, env *c34Env, rec *vh.Recorder, known map[string]int) {
 	if popAfterBoth {
 		classes["pop_restored_staged+unstaged_stash"] = true
 	}
+	c.drain(known, classes)
 	_ = moveCarried
 	nontrivial := pushBoth && moveRefused
 	var cls []string
@@ -987,6 +993,51 @@ func c34Run(rt *rapid.T, env *c34Env, rec *vh.Recorder, known map[string]int) {
 	}
 	sort.Strings(cls)
 	rec.Case(strings.Join(c.log, " ; "), nontrivial, cls...)
+}
+
+// stashIndex draws the position stash@{k} a pop or drop addresses in list name: the top entry,
+// any entry of a longer list, or (rarely) one past the end, which must fail. arg is the SQL
+// argument suffix ("" = default stash@{0}).
+func (c *c34Case) stashIndex(label, name string) (idx int, arg string) {
+	n := len(c.m.stashes[name])
+	switch r := rapid.IntRange(0, 19).Draw(c.rt, label+".pos"); {
+	case r == 0 && n > 0:
+		idx = n
+	case r < 12 && n > 1:
+		idx = rapid.IntRange(0, n-1).Draw(c.rt, label+".k")
+	}
+	if idx > 0 || rapid.Bool().Draw(c.rt, label+".explicit") {
+		arg = fmt.Sprintf(",'stash@{%d}'", idx)
+	}
+	return idx, arg
+}
+
+// drain empties every stash list at the end of a case: hard reset, pop the top entry, compare;
+// an entry that cannot be applied is dropped. So every stash that was pushed and survived is
+// compared by content, not only by its row in dolt_stashes.
+func (c *c34Case) drain(known map[string]int, classes map[string]bool) {
+	for _, name := range []string{"s1", "s2"} {
+		for i := 0; len(c.m.stashes[name]) > 0 && i < 12; i++ {
+			label := fmt.Sprintf("drain.%s.%d", name, i)
+			c.m.resetHard(-1)
+			c.vc(label, "CALL dolt_reset('--hard')", false, nil, known, "")
+			before := len(c.m.stashes[name])
+			pre := c.m.clone()
+			fail, uncertain := c.m.stashPop(name, 0)
+			q := fmt.Sprintf("CALL dolt_stash('pop','%s')", name)
+			if uncertain {
+				c.uncertain(label, q, pre, name, 0)
+			} else {
+				c.vc(label, q, fail, nil, known, "")
+			}
+			if len(c.m.stashes[name]) == before {
+				c.m.stashDrop(name, 0)
+				c.vc(label, fmt.Sprintf("CALL dolt_stash('drop','%s')", name), false, nil, known, "")
+			} else {
+				classes["drained_pop"] = true
+			}
+		}
+	}
 }
 
 // kinds is the weighted, state-dependent menu of the next step.
@@ -1025,7 +1076,10 @@ func (c *c34Case) kinds() []string {
 			ks = rep(ks, "stash_drop", 3)
 		}
 		if n < 3 {
-			ks = rep(ks, "stash_push", 4) // grow the lists
+			ks = rep(ks, "stash_push", 8) // grow the lists
+		}
+		if c.removed {
+			ks = rep(ks, "stash_push", 10) // pushes after removals
 		}
 	} else {
 		ks = rep(ks, "stash_pop", 1)
